@@ -458,11 +458,18 @@ impl<'a> Drop for ReportSkipped<'a> {
 /// What kind of line this is, as far as the reader's bookkeeping goes (verification hooks only)
 #[cfg(feature = "verif")]
 fn line_class(line: &str) -> &'static str {
-    if nested_too_deep(line) {
-        return "other";
-    }
-    match document::line(line) {
-        Ok(Document::DirectiveLine(_, directive, _)) => match directive {
+    // as the reader does: by the grammar, or by the first word when the grammar does not take the line
+    let directive = if nested_too_deep(line) {
+        conditional_directive(line)
+    } else {
+        match document::line(line) {
+            Ok(Document::DirectiveLine(_, directive, _)) => Some(directive),
+            Ok(_) => None,
+            Err(_) => conditional_directive(line),
+        }
+    };
+    match directive {
+        Some(directive) => match directive {
             Directive::If => "if",
             Directive::IfDef => "ifdef",
             Directive::IfNDef => "ifndef",
@@ -473,7 +480,7 @@ fn line_class(line: &str) -> &'static str {
             Directive::EndM | Directive::EndMacro => "endm",
             _ => "other",
         },
-        _ => "other",
+        None => "other",
     }
 }
 
